@@ -179,8 +179,31 @@ fn build_history(st: &State, t: &mut Toks) -> PResult<std::result::Result<(Diame
             let fl = t.u32()? as u8;
             let hbh = t.u32()?;
             let e2e = t.u32()?;
-            let cmd = CommandCode::from_u32(cmd).ok_or_else(|| "case: unknown command".to_string())?;
-            let app = ApplicationId::from_u32(app).ok_or_else(|| "case: unknown application".to_string())?;
+            // the variants by NAME (the library's own number -> variant conversion is part of what is being checked)
+            let cmd = match cmd {
+                0 => CommandCode::Error,
+                257 => CommandCode::CapabilitiesExchange,
+                280 => CommandCode::DeviceWatchdog,
+                282 => CommandCode::DisconnectPeer,
+                258 => CommandCode::ReAuth,
+                275 => CommandCode::SessionTerminate,
+                274 => CommandCode::AbortSession,
+                272 => CommandCode::CreditControl,
+                8388635 => CommandCode::SpendingLimit,
+                8388636 => CommandCode::SpendingStatusNotification,
+                271 => CommandCode::Accounting,
+                265 => CommandCode::AA,
+                _ => return Err("case: unknown command".to_string()),
+            };
+            let app = match app {
+                0 => ApplicationId::Common,
+                3 => ApplicationId::Accounting,
+                4 => ApplicationId::CreditControl,
+                16777238 => ApplicationId::Gx,
+                16777236 => ApplicationId::Rx,
+                16777302 => ApplicationId::Sy,
+                _ => return Err("case: unknown application".to_string()),
+            };
             DiameterMessage::new(cmd, app, fl, hbh, e2e, Arc::clone(&dict))
         }
         "DEC" => {
@@ -227,6 +250,11 @@ fn build_history(st: &State, t: &mut Toks) -> PResult<std::result::Result<(Diame
             let _ = m.get_avp(*c);
         }
         let _ = m.get_length();
+        // encoding is as pure as looking: the message is encoded (octets discarded) between construction steps
+        if m.get_hop_by_hop_id() % 2 == 1 || m.get_avps().len() % 2 == 1 {
+            let mut sink = Vec::new();
+            let _ = m.encode_to(&mut sink);
+        }
         // the last lookup before the next construction step is the one the case will ask first at its end
         if let Some(c) = probes.get(4) {
             let _ = m.get_avp(*c);
@@ -554,6 +582,58 @@ fn run_faultwrite(st: &State, t: &mut Toks) -> PResult<String> {
 
 
 /// a reader that hands out at most one octet per read() call (Read + Seek over an in-memory buffer)
+/// hands out one octet per read() call, and before each of them reports ErrorKind::Interrupted once
+struct Interrupting {
+    inner: Cursor<Vec<u8>>,
+    armed: bool,
+}
+impl std::io::Read for Interrupting {
+    fn read(&mut self, b: &mut [u8]) -> std::io::Result<usize> {
+        if self.armed {
+            self.armed = false;
+            return Err(std::io::Error::new(std::io::ErrorKind::Interrupted, "EINTR"));
+        }
+        self.armed = true;
+        let n = b.len().min(1);
+        std::io::Read::read(&mut self.inner, &mut b[..n])
+    }
+}
+impl std::io::Seek for Interrupting {
+    fn seek(&mut self, p: std::io::SeekFrom) -> std::io::Result<u64> {
+        self.inner.seek(p)
+    }
+}
+
+/// a reader / writer / seeker that panics after handing out (taking) that many octets of zeros
+struct Panicking(usize);
+impl std::io::Read for Panicking {
+    fn read(&mut self, b: &mut [u8]) -> std::io::Result<usize> {
+        if self.0 == 0 {
+            panic!("the caller's reader panics");
+        }
+        let n = b.len().min(self.0).min(1);
+        b[..n].iter_mut().for_each(|x| *x = 0);
+        if n > 0 && self.0 == 24 {
+            b[0] = 1;
+        }
+        self.0 -= n;
+        Ok(n)
+    }
+}
+impl std::io::Seek for Panicking {
+    fn seek(&mut self, _p: std::io::SeekFrom) -> std::io::Result<u64> {
+        Ok(0)
+    }
+}
+impl std::io::Write for Panicking {
+    fn write(&mut self, _b: &[u8]) -> std::io::Result<usize> {
+        panic!("the caller's writer panics");
+    }
+    fn flush(&mut self) -> std::io::Result<()> {
+        Ok(())
+    }
+}
+
 struct Dribble(Cursor<Vec<u8>>);
 impl std::io::Read for Dribble {
     fn read(&mut self, b: &mut [u8]) -> std::io::Result<usize> {
@@ -651,6 +731,10 @@ fn run_decode_multi(st: &State, t: &mut Toks) -> PResult<String> {
 }
 
 /// LEAFDEC decodes from a Cursor; LEAFDECD through a reader that hands out one octet per read() call
+fn leaf_dec_interrupted(t: &mut Toks) -> PResult<String> {
+    leaf_dec_from(t, |b| Interrupting { inner: Cursor::new(b), armed: true }, |d| d.inner.position() as usize)
+}
+
 fn leaf_dec(t: &mut Toks, dribble: bool) -> PResult<String> {
     if !dribble {
         return leaf_dec_from(t, |b| Cursor::new(b), |c| c.position() as usize);
@@ -910,7 +994,98 @@ pub fn handle(st: &mut State, line: &str) -> String {
             "X" => run_decode(st, &mut t),
             "XO" => run_decode_variant(st, &mut t, false),
             "XD" => run_decode_variant(st, &mut t, true),
+            // GBIG <n> <size>: a message built from n OctetString AVPs (code 1011) of `size` zero octets each, then one
+            // Unsigned32 AVP (code 1012) and a Result-Code: what the list and the lookups say afterwards (no values printed)
+            "GBIG" => {
+                let dict = st.dicts.get("g").ok_or_else(|| "dict g missing".to_string())?.clone();
+                let n = t.usize_dec()?;
+                let size = t.u64()? as usize;
+                let mut m = DiameterMessage::new(CommandCode::CreditControl, ApplicationId::CreditControl, 0x80, 1, 2, Arc::clone(&dict));
+                for _ in 0..n {
+                    m.add_avp(1011, None, 0, OctetString::new(vec![0u8; size]).into());
+                }
+                m.add_avp(1012, None, 0x40, Unsigned32::new(7).into());
+                m.add_avp(268, None, 0x40, Unsigned32::new(2001).into());
+                let pos = |c: u32| match m.get_avp(c) {
+                    Some(a) => m.get_avps().iter().position(|x| std::ptr::eq(x, a)).map(|i| i.to_string()).unwrap_or_else(|| "foreign".into()),
+                    None => "none".into(),
+                };
+                let codes: Vec<String> = m.get_avps().iter().map(|a| format!("{:x}", a.get_code())).collect();
+                let big = codes.iter().filter(|c| c.as_str() == "3f3").count();
+                Ok(format!("GBIG count={} big={} tail={} first1011={} first1012={} first268={} length={}", m.get_avps().len(), big,
+                           codes[codes.len().saturating_sub(2)..].join(","), pos(1011), pos(1012), pos(268), m.get_length()))
+            }
             "XM" => run_decode_multi(st, &mut t),
+            // XP <dict> <k> <frame>: decode_from on a reader that already stands k octets PAST the end of what it holds
+            "XP" => {
+                let dict = st.dicts.get(t.next()?).ok_or_else(|| "unknown dict".to_string())?.clone();
+                let k = t.usize_dec()?;
+                let bytes = t.bytes()?;
+                let r = catch_unwind(AssertUnwindSafe(|| {
+                    let n = bytes.len();
+                    let mut cur = Cursor::new(bytes);
+                    cur.set_position((n + k) as u64);
+                    DiameterMessage::decode_from(&mut cur, dict)
+                }));
+                Ok(decoded_obs(r.map_err(|e| {
+                    e.downcast_ref::<String>().cloned().or_else(|| e.downcast_ref::<&str>().map(|s| s.to_string())).unwrap_or_else(|| "panic".into())
+                })))
+            }
+            // XI <dict> <frame>: a reader whose read() is interrupted (ErrorKind::Interrupted, EINTR) before every octet it hands out
+            "XI" => {
+                let dict = st.dicts.get(t.next()?).ok_or_else(|| "unknown dict".to_string())?.clone();
+                let bytes = t.bytes()?;
+                let r = catch_unwind(AssertUnwindSafe(|| {
+                    let mut rd = Interrupting { inner: Cursor::new(bytes), armed: true };
+                    DiameterMessage::decode_from(&mut rd, dict)
+                }));
+                Ok(decoded_obs(r.map_err(|e| {
+                    e.downcast_ref::<String>().cloned().or_else(|| e.downcast_ref::<&str>().map(|s| s.to_string())).unwrap_or_else(|| "panic".into())
+                })))
+            }
+            // POISON: somebody else's decode and encode, on another thread, go through a reader / writer that PANICS inside
+            // read() / write() (a bug in the caller's own I/O type).  Nothing of it may be felt by later decodes and encodes.
+            "POISON" => {
+                let dict = st.dicts.get("b").ok_or_else(|| "dict b missing".to_string())?.clone();
+                let h = std::thread::spawn(move || {
+                    let _ = catch_unwind(AssertUnwindSafe(|| {
+                        let mut rd = Panicking(0);
+                        let _ = DiameterMessage::decode_from(&mut rd, Arc::clone(&dict));
+                    }));
+                    let _ = catch_unwind(AssertUnwindSafe(|| {
+                        let mut rd = Panicking(24);
+                        let _ = DiameterMessage::decode_from(&mut rd, Arc::clone(&dict));
+                    }));
+                    let _ = catch_unwind(AssertUnwindSafe(|| {
+                        let m = DiameterMessage::new(CommandCode::CreditControl, ApplicationId::CreditControl, 0x80, 1, 2, Arc::clone(&dict));
+                        let mut w = Panicking(0);
+                        let _ = m.encode_to(&mut w);
+                    }));
+                    for ty in ["u32", "u64", "i32", "i64", "f32", "f64", "en", "time", "ip4"] {
+                        let _ = catch_unwind(AssertUnwindSafe(|| {
+                            let mut rd = Panicking(0);
+                            let _ = match ty {
+                                "u32" => Unsigned32::decode_from(&mut rd).map(|_| ()),
+                                "u64" => Unsigned64::decode_from(&mut rd).map(|_| ()),
+                                "i32" => Integer32::decode_from(&mut rd).map(|_| ()),
+                                "i64" => Integer64::decode_from(&mut rd).map(|_| ()),
+                                "f32" => Float32::decode_from(&mut rd).map(|_| ()),
+                                "f64" => Float64::decode_from(&mut rd).map(|_| ()),
+                                "en" => Enumerated::decode_from(&mut rd).map(|_| ()),
+                                "time" => Time::decode_from(&mut rd).map(|_| ()),
+                                _ => IPv4::decode_from(&mut rd).map(|_| ()),
+                            };
+                        }));
+                        let _ = catch_unwind(AssertUnwindSafe(|| {
+                            let mut w = Panicking(0);
+                            let _ = Unsigned32::new(7).encode_to(&mut w);
+                            let _ = Unsigned64::new(7).encode_to(&mut w);
+                        }));
+                    }
+                });
+                let _ = h.join();
+                Ok("OK".into())
+            }
             // DGLOBAL <op>: one load / add applied to the library's process-wide DEFAULT_DICT (public, mutable)
             "DGLOBAL" => {
                 let op = parse_dop(&mut t)?;
@@ -923,6 +1098,7 @@ pub fn handle(st: &mut State, line: &str) -> String {
             }
             "LEAFDEC" => leaf_dec(&mut t, false),
             "LEAFDECD" => leaf_dec(&mut t, true),
+            "LEAFDECI" => leaf_dec_interrupted(&mut t),
             "LEAFENC" => leaf_enc(&mut t),
             "SWEEP32" => sweep32(&mut t),
             "UTF8" => {
